@@ -339,6 +339,7 @@ def finish(ctx, prop, tier, t0, spec_doc, floor, seed=0):
             "analysed": {"files": stats["files"], "classes": stats["classes"], "functions_parsed": stats["functions"], "functions_interpreted": len(inl), "call_sites_resolved": calls_res, "call_sites_unresolved": calls_unres},
             "known_findings_reported": sorted(seen_known),
             "exhaustive": True,
+            **getattr(ctx, "extra_coverage", {}),
         },
         "assumptions": ctx.assumptions,
         "wall_s": round(time.time() - t0, 3),
